@@ -229,11 +229,15 @@ impl BufferedUnixMetricSink {
 impl MetricSink for BufferedUnixMetricSink {
     fn emit(&self, metric: &str) -> io::Result<usize> {
         let mut writer = self.buffer.lock().unwrap();
+        #[cfg(cadence_verif)]
+        let _verif = crate::verif::Scope::new("buf.locked", "buf.unlocking", self as *const Self as usize);
         writer.write(metric.as_bytes())
     }
 
     fn flush(&self) -> io::Result<()> {
         let mut writer = self.buffer.lock().unwrap();
+        #[cfg(cadence_verif)]
+        let _verif = crate::verif::Scope::new("buf.locked", "buf.unlocking", self as *const Self as usize);
         writer.flush()
     }
 
